@@ -315,6 +315,18 @@ func (p *Pipeline) SpoolFiles() []string {
 	return out
 }
 
+// WARCBytes is the total size of the job's WARC files right now.
+func (p *Pipeline) WARCBytes() int64 {
+	var n int64
+	ents, _ := os.ReadDir(p.WARCDir)
+	for _, de := range ents {
+		if fi, err := de.Info(); err == nil {
+			n += fi.Size()
+		}
+	}
+	return n
+}
+
 // CloseIdle closes idle keep-alive connections of the archiver's clients (keep-alives are disabled there anyway).
 func (p *Pipeline) CloseIdle() {
 	for _, c := range archiver.GetClients() {
